@@ -450,9 +450,12 @@ fn consume_expr<'i>(
                         }
                     }
                     Rule::insensitive_string => {
-                        let string = unescape_literal(pair.as_span(), "string")?;
+                        // `^` may be separated from the string by whitespace or comments: take
+                        // the text of the string itself rather than assuming it starts right after `^`.
+                        let string_pair = pair.clone().into_inner().next().unwrap();
+                        let string = unescape_literal(string_pair.as_span(), "string")?;
                         ParserNode {
-                            expr: ParserExpr::Insens(string[2..string.len() - 1].to_owned()),
+                            expr: ParserExpr::Insens(string[1..string.len() - 1].to_owned()),
                             span: pair.clone().as_span(),
                         }
                     }
